@@ -10,11 +10,12 @@ Case lines (shared with harness/c05/c05.c):
   setcg <oid|0>                    command_giver at driver level
   # ops <s-expressions>            abstract op list of the LPC function evaluated by the next inject/run
   inject <oid> <fn> [co|po <oid>]  fault at every instruction k of <oid>-><fn>()
+  injectsafe <oid> <fn> <n>        the evaluation is safe_apply(fn, ob, n) from driver level; ops = (safe n declared …)
   injectco                         fault at every instruction of the real call_out() sweep (callbacks scheduled by prep)
   run <oid> <fn>                   one evaluation without fault (side effects stay)
   input <oid> <text>               next input line of an interactive (pending input_to)
 op syntax:  (say t) (tmp n ops) (handler id ops) (setreg co|po|cg oid) (withcg oid ops) (install site ok|bad)
-  (call local|other|fplocal|functional|efunp oid nargs declared ops) (cb … same, a callback made by an efun: no tick) (catch ops) (saycatch) (safe nargs declared ops)
+  (call local|other|fplocal|functional|efunp oid nargs declared ops) (cb … same, a callback made by an efun: no tick) (catch ops) (saycatch) (safe nargs declared ops) (safefp oid nargs declared ops)
   (raise t) (throw t) (limit) (load ops) (dhook oid ops)
 -/
 import NV.Common.Proto
@@ -119,7 +120,18 @@ def parseOp (n : Names) : Nat → List String → Option (Op × List String)
       match a.toNat?, d.toNat? with
       | some a, some d => body rest (.safeApply a d)
       | _, _ => none
+    | "safefp" :: o :: a :: d :: rest =>
+      match a.toNat?, d.toNat? with
+      | some a, some d => body rest (.safeFp (n.valOf o) a d)
+      | _, _ => none
     | "raise" :: t :: rest => some (.raise ("*" ++ t), rest)
+    | "raisemsg" :: rest =>
+      -- a message with spaces: words up to the closing parenthesis
+      let ws := rest.takeWhile (· != ")")
+      some (.raise (" ".intercalate ws), rest.dropWhile (· != ")"))
+    | "craise" :: rest =>
+      let ws := rest.takeWhile (· != ")")
+      some (.craise (" ".intercalate ws), rest.dropWhile (· != ")"))
     | "throw" :: t :: rest => some (.throw_ t, rest)
     | "limit" :: rest => some (.raiseLimit, rest)
     | "load" :: rest => body rest .load
@@ -229,7 +241,7 @@ def stepLine (s : DState) (line : String) : DState :=
       let shapes := dedupSorted (runs.filterMap (fun t => t.after.shape))
       let s3 := outcomes.foldl (fun acc o => acc.emit ("outcome " ++ o)) s2
       shapes.foldl (fun acc o => acc.emit ("shape " ++ o)) s3
-  | ["injectco"] =>
+  | ["injectsafe", _, _, _] | ["injectsafefp", _, _, _] | ["injectco"] =>
     match s.prog with
     | none => { s with bad := line :: s.bad }
     | some p =>
